@@ -96,7 +96,7 @@ func c02StructOps(r *idl.Resolver, s *idl.Struct, f *idl.File, goName string, pr
 		for _, fl := range s.Fields {
 			if fl.Req == "optional" && fl.Default != nil {
 				if x, ok := v.F[strconv.Itoa(fl.ID)]; ok {
-					dv := r.LitToV(r.Resolve(f, fl.Type), fl.Default)
+					dv := r.LitToVIn(f, r.Resolve(f, fl.Type), fl.Default)
 					idl.SortV(dv)
 					xc := cloneV(x)
 					idl.SortV(xc)
@@ -202,7 +202,7 @@ func runC02(res *result) {
 	}
 	atoms := idl.FieldAtoms(depth)
 	for _, a := range idl.DeclAtoms() {
-		if a.Class == "union" || a.Class == "exception" || a.Class == "struct" || strings.HasPrefix(a.Name, "service/ret") || a.Name == "service/include-types" || a.Name == "service/oneway" {
+		if a.Class == "union" || a.Class == "exception" || a.Class == "struct" || a.Class == "constref" || strings.HasPrefix(a.Name, "service/ret") || a.Name == "service/include-types" || a.Name == "service/oneway" {
 			atoms = append(atoms, a)
 		}
 	}
@@ -301,7 +301,7 @@ func runC02(res *result) {
 							} else if fl.Default != nil {
 								// a freshly constructed value carries the declared default, exactly
 								stf, sff := r.FindStruct(plan.Ops[i].Type)
-								want := r.ExpectStructTree(stf, sff, &idl.V{K: "struct", F: map[string]*idl.V{id: r.LitToV(rt, fl.Default)}})
+								want := r.ExpectStructTree(stf, sff, &idl.V{K: "struct", F: map[string]*idl.V{id: r.LitToVIn(sff, rt, fl.Default)}})
 								if w, ok := want.F[id]; ok && idl.CanonW(w) != idl.CanonW(rr.Tree.F[id]) {
 									bad = fmt.Sprintf("%s field %d (%s) of a freshly constructed value is written as %s, the declared default is %s", fl.Req, fl.ID, fl.Type, idl.CanonW(rr.Tree.F[id]), idl.CanonW(w))
 								}
